@@ -228,6 +228,19 @@ class FakeNp:
     def sqrt(x):
         return sp.sqrt(x)
 
+    @staticmethod
+    def isclose(a, b, *x, **k):
+        """tolerance test: decided for numbers and for identical terms; otherwise both outcomes are explored and neither says anything about equality"""
+        if all(isinstance(v, (int, float)) for v in (a, b)):
+            import numpy as _np
+            return bool(_np.isclose(a, b, *x, **k))
+        if sp.simplify(sp.sympify(a) - sp.sympify(b)) == 0:
+            return True
+        from .fakelib import _tolerance_test
+        return _tolerance_test('np.isclose', x, k)
+
+    allclose = isclose
+
 
 class FakeTime:
     @staticmethod
